@@ -1,6 +1,6 @@
 CFG = {
     "level_text": "Unbounded theorem about the Gallina model of concat_nodes / concat_oov_nodes and of the two rewrite loops (any fuel, any path, any settings): the output path is the input path with consecutive non-empty groups replaced by one node each, whose range is the union, whose dictionary-side surface is the concatenation and whose part of speech is the prescribed one; every other node is the input node itself. The model is run on the plugin-free analysis of generated texts and compared with the analysis with plugins each check.",
-    "level_note": "Proved about the model; model tied to the code by Generated/RewriteFacts.v, Generated/NumericFacts.v and the differential run. Termination within the stated fuel is proved for the katakana loop and tested for the numeric loop.",
+    "level_note": "The model node carries the reported byte range as well as the code-point range; merged = union of both. Proved about the model; model tied to the code by Generated/RewriteFacts.v, Generated/NumericFacts.v and the differential run. Termination within the stated fuel is proved for the katakana loop and tested for the numeric loop.",
     "facts": ["RewriteFacts", "NumericFacts"],
     "trusted": ["character classes of node ranges are read from the implementation's own InputBuffer (C17 covers them)"],
     "assumptions": ["the path handed to the plugins is the best path of the lattice, which does not depend on the path-rewrite plugins (same dictionary bytes, same configuration otherwise)"],
